@@ -22,7 +22,7 @@ for d in sorted(os.listdir(os.path.join(VERIF, "seeded"))):
     a = subprocess.run(["git", "-C", "/repo", "apply", patch], capture_output=True, text=True)
     if a.returncode != 0:
         res[d] = {"applies": False, "error": a.stderr[-300:]}
-        print(d, "DOES NOT APPLY")
+        print(d, "DOES NOT APPLY", flush=True)
         continue
     try:
         out = []
@@ -36,7 +36,7 @@ for d in sorted(os.listdir(os.path.join(VERIF, "seeded"))):
                 detected = True
                 break
         res[d] = {"applies": True, "detected": detected, "runs": out}
-        print(d, "detected" if detected else "MISSED", out[-1]["lines"][:1])
+        print(d, "detected" if detected else "MISSED", out[-1]["lines"][:1], flush=True)
     finally:
         subprocess.run(["git", "-C", "/repo", "checkout", "--", "."], check=True)
         subprocess.run(["git", "-C", "/repo", "clean", "-fdq"], check=True)
